@@ -280,7 +280,7 @@ def replay_case(s, what, extra):
 
 
 # ======================================================================================= the conformance loop
-def conformance(ctx, stmts, plan_sel, e2e_sel, data_name, st):
+def conformance(ctx, stmts, plan_sel, e2e_sel, data_name, st, max_records=None, rng=None):
     """plan_sel: statements whose decision is recorded and trace-validated; e2e_sel: [(statement, t rows, d rows)] executed end to end"""
     T0, D0 = [[0, 1], [1, 2]], [[0, 1]]
     hcases, meta = [], {}
@@ -339,6 +339,25 @@ def conformance(ctx, stmts, plan_sel, e2e_sel, data_name, st):
         recs.append(rec)
     st["decisions"] = dict(shapes)
     st["drift"] = dict(drift)
+    st["distinct_decisions"] = len(recs)
+    if max_records is not None and len(recs) > max_records:
+        # judge one decision per statement class, a few of every listed shape, and a seeded fill
+        groups = collections.OrderedDict()
+        for r in recs:
+            groups.setdefault(class_key(rec_stmts[r["id"]][0]) + (r["shape"], r["table"]), []).append(r)
+        keep = [g[rng.randrange(len(g))] for g in groups.values()]
+        chosen = {r["id"] for r in keep}
+        rest = [r for r in recs if r["id"] not in chosen]
+        rng.shuffle(rest)
+        keep = (keep + rest)[:max(max_records, 0)] if len(keep) < max_records else keep[:max_records]
+        keep.sort(key=lambda r: r["id"])
+        old_stmts = rec_stmts
+        recs, rec_stmts = [], {}
+        for r in keep:
+            ss = old_stmts[r["id"]]
+            r["id"] = len(recs)
+            rec_stmts[r["id"]] = ss
+            recs.append(r)
 
     # ---- end-to-end records
     erecs, emeta = [], {}
@@ -501,14 +520,14 @@ def run_sub(ctx):
             per = 1
         else:
             plan_sel = stmts
-            e2e_stmts = known_reps + sample(sound, 500, rng)
+            e2e_stmts = known_reps + sample(sound, 320, rng)
             per = 2
         e2e_sel = []
         for s in e2e_stmts:
             for _ in range(per):
                 t, d = dataset(rng)
                 e2e_sel.append((s, t, d))
-        conformance(ctx, stmts, plan_sel, e2e_sel, "small", st)
+        conformance(ctx, stmts, plan_sel, e2e_sel, "small", st, max_records=None if tier == "quick" else 560, rng=rng)
         # ---- model results
         for (cfg, what), res in fut_models.result():
             vlib.tlc_must_pass(res, f"DistPlan/{cfg}")
